@@ -68,7 +68,19 @@ def c14(tapes, params):
         if g.draw(3, 'connsize') == 0:
             comm.ConnectionSize = 504
         for n in range(nops):
-            k = g.weighted([(5, 'read'), (4, 'write'), (2, 'multi'), (1, 'unknown'), (1, 'range'), (1, 'big')], 'pk')
+            try:
+                one_call(comm, n)
+            except Violation:
+                raise
+            except Exception as exc:        # noqa: BLE001
+                w.violation('c14-client-exception', 'pylogix raised %s: %s at call %d (%r)' % (
+                    type(exc).__name__, str(exc)[:200], n, w.samples[-1] if w.samples else None))
+                raise Violation()
+        finish(comm)
+
+    def one_call(comm, n):
+        if True:
+            k = g.weighted([(5, 'read'), (4, 'write'), (2, 'multi'), (2, 'unknown'), (1, 'range'), (1, 'big')], 'pk')
             t = g.choice(tags, 'ptag')
             L = t.length
             if k == 'big':
@@ -125,11 +137,18 @@ def c14(tapes, params):
                     if r.Status != 'Success' or not values_equal(tn, r.Value, [wv]):
                         w.violation('c14-multi-read', 'pylogix Read(%r): %r -> Status %r Value %r; model %r' % (names, nm, r.Status, r.Value, wv), ttype=tn)
             elif k == 'unknown':
+                before_idx = getattr(comm.conn.Socket, 'conn_index', None)
+                w.samples.append({'Read': 'unknown tag'})
                 ret = comm.Read(g.choice(['NoSuchTag', 'Missing[3]', 'nope.tag'], 'ut'))
                 stats['errors'] += 1
-                w.samples.append({'Read': 'unknown', 'status': ret.Status})
+                w.samples[-1]['status'] = ret.Status
                 if ret.Status == 'Success' or ret.Value is not None:
                     w.violation('c14-unknown-tag', 'pylogix Read of an unknown tag -> Status %r Value %r' % (ret.Status, ret.Value))
+                # an unknown tag is a CIP-level error on a connected session: the session must survive it
+                srv_side = w.net.conns[before_idx][1] if before_idx is not None else None
+                if before_idx is not None and (not comm.conn.SocketConnected or srv_side.closed or
+                                               getattr(comm.conn.Socket, 'conn_index', None) != before_idx):
+                    w.violation('c14-session-dropped', 'after reading an unknown tag (Status %r) the connected session was dropped' % (ret.Status,))
             else:
                 name = '%s[%d]' % (t.name, L + g.draw(3, 'over'))
                 ret = comm.Read(name, 1)
@@ -137,6 +156,7 @@ def c14(tapes, params):
                 w.samples.append({'Read': name, 'status': ret.Status})
                 if ret.Status == 'Success' or ret.Value is not None:
                     w.violation('c14-out-of-range', 'pylogix Read(%r) beyond the %d-element tag -> Status %r Value %r' % (name, L, ret.Status, ret.Value))
+    def finish(comm):
         # clean close: Forward Close answered, Unregister not answered, server side cleaned up
         peer = comm.conn.Socket.getsockname() if hasattr(comm.conn.Socket, 'getsockname') else None
         idx = getattr(comm.conn.Socket, 'conn_index', None)
@@ -164,8 +184,24 @@ def c14(tapes, params):
         if w.sched.uncaught:
             w.violation('c14-server-exception', 'exception escaped a server thread: %r' % (w.sched.uncaught[:2],))
 
-    w.spawn(driver, 'pylogix')
-    res = w.run()
+    def intruder():
+        # other clients from the same host come and go, some without saying goodbye
+        for j in range(g.between(1, 3, 'nintr')):
+            w.sched.sleep(0.05 * (1 + sch.draw(40, 'idelay')))
+            s = RefSession(w, 'intruder%d' % j)
+            s.connect()
+            s.register()
+            if g.draw(2, 'ifo'):
+                s.forward_open(large=bool(g.draw(2, 'ilg')))
+            w.sched.sleep(0.01 * sch.draw(30, 'ilife'))
+            if g.draw(3, 'ibye') == 0 and s.conn_id is not None:
+                s.rr(rc.req_forward_close(s.conn_serial), route='bare')
+            s.close()
+            w.net.fired('PEER_VANISHED')
+
+    drv = w.spawn(driver, 'pylogix')
+    w.spawn(intruder, 'intruder')
+    res = w.run(stop_when=lambda: drv._sim_state == 'done')
     res['nontrivial'] = bool((stats['reads'] + stats['writes'] + stats['multi'] >= 3 and stats['closed']) or res['violations'])
     res['notes'] = stats
     return res
